@@ -39,6 +39,18 @@ macro_rules
       Option.map_map, Function.comp_def, Nat.zero_sub, Option.bind_assoc, bind, Option.bind_eq_bind,
       require_bind_unit, ite_none_bind, $extra,*] $loc:location)
 
+/-- the same for large structs (several hundred primitive reads): higher simp step limit -/
+syntax "binrw_norm!" "[" Lean.Parser.Tactic.simpLemma,* "]" : tactic
+macro_rules
+  | `(tactic| binrw_norm! [$extra,*]) => `(tactic| simp (config := { maxSteps := 4000000 }) only [Layout.read, Layout.readFields, Field.read, Kind.read,
+      readMagic, readPrim, Prim.width, Prim.signed, Kind.size, Layout.size, Layout.sizeFields, Field.size, Count.eval,
+      Value.validIn, Value.asCount, Value.bits, repeatN, via, Option.getD, skip,
+      List.drop_zero, List.nil_append, List.cons_append, List.length_cons, List.length_nil,
+      List.getElem?_cons_zero, List.getElem?_cons_succ,
+      Option.bind_some, Option.bind_none, Option.map_some, Option.map_none, Option.bind_map, Option.map_bind,
+      Option.map_map, Function.comp_def, Nat.zero_sub, Option.bind_assoc, bind, Option.bind_eq_bind,
+      require_bind_unit, ite_none_bind, $extra,*])
+
 /-! ### `normalize` preserves what is read -/
 
 theorem Field.read_pushEndian (le : Option Endian) (e : Endian) (env : List Value) (f : Field) :
